@@ -49,6 +49,16 @@ def mutation_selftest(prop, r):
     mine = [m for m in cat if prop in m["expect"]]
     results = []
     killed = 0
+    # obligations that already fail on the unmutated tree (recorded findings and their cascades) never count as a kill
+    def _fid(f):
+        return (f["ob"] or ("%s@%s" % (f["kind"], f["fn"])), f["fn"], f["kind"], (f.get("site_text") or "")[:80])
+    if r is not None:
+        base_fail = {_fid(f) for f in r.an.failures}
+    else:
+        em0 = P.build()
+        path0 = os.path.join(P.BUILD, "bcenv_mutant_base.rs")
+        open(path0, "w").write("\n".join(em0.lines))
+        base_fail = {_fid(f) for f in P.analyse(P.run_verus(path0, multiple_errors=30), em0, path0).failures}
     for m in mine:
         scratch = tempfile.mkdtemp(prefix="verif_mut_", dir="/var/tmp")
         try:
@@ -81,8 +91,9 @@ def mutation_selftest(prop, r):
             # same decision policy as the check itself: a failure in a function whose annotations could not be placed is
             # undecided, not a detection
             deg = {d.split(": ")[0] for d in em.degraded if ": orphan: " not in d}
-            hit = sorted({(f["ob"] or ("%s@%s" % (f["kind"], f["fn"]))) for f in an.failures if prop in P.failure_tags(f) and f["fn"] not in deg})
-            und = sorted({(f["ob"] or ("%s@%s" % (f["kind"], f["fn"]))) for f in an.failures if prop in P.failure_tags(f) and f["fn"] in deg})
+            fresh = [f for f in an.failures if _fid(f) not in base_fail]
+            hit = sorted({(f["ob"] or ("%s@%s" % (f["kind"], f["fn"]))) for f in fresh if prop in P.failure_tags(f) and f["fn"] not in deg})
+            und = sorted({(f["ob"] or ("%s@%s" % (f["kind"], f["fn"]))) for f in fresh if prop in P.failure_tags(f) and f["fn"] in deg})
             if not hit and und:
                 results.append({"id": m["id"], "status": "undecided: obligations fail only in functions whose annotations could not be placed", "obligations": und[:4]})
                 continue
